@@ -34,6 +34,31 @@ def make_case(seed: int, index: int, big=False, ambiguous=False, depth=2, pad=No
     return desc, files, sorted(g.features)
 
 
+HEADER_KEYS = {"suit-cose-algorithm-id", "suit-cose-key-id", "suit-cose-iv"}
+DIGIT_HEX = ["1234", "2024", "00", "0123", "99", "10", "0b11", "1e10", "4142", "20240926", "7", "007"]
+
+
+def perturb(desc, rng, feats=None):
+    """description-level variations the grammar generator never produces (applied after it, with their own PRNG, so the generator's stream is
+    unchanged): COSE header maps listed in non-ascending label order, and hex strings for int-or-bstr members made of decimal digits only"""
+    feats = feats if feats is not None else set()
+    if isinstance(desc, dict):
+        items = [(k, perturb(v, rng, feats)) for k, v in desc.items()]
+        if len(items) >= 2 and set(desc) <= HEADER_KEYS and rng.random() < 0.4:
+            items.reverse()
+            feats.add("header-labels-descending")
+        out = {}
+        for k, v in items:
+            if k in ("suit-parameter-content", "suit-cose-key-id") and isinstance(v, str) and rng.random() < 0.35:
+                v = rng.choice([h for h in DIGIT_HEX if len(h) % 2 == 0])
+                feats.add("digits-only-hex")
+            out[k] = v
+        return out
+    if isinstance(desc, list):
+        return [perturb(v, rng, feats) for v in desc]
+    return desc
+
+
 LAST_CHILDREN = []   # descriptions of the children / encryption infos materialised as files by the last make_case
 
 
